@@ -64,6 +64,19 @@ func (g *gen) header() {
 	g.p("\tvhSummaries(true)")
 	g.p("\tvhAssert(\"sov.summary\", realSov == vhruntime.Sov(x))")
 	g.p("\tvhAssert(\"soz.summary\", realSoz == vhruntime.Soz(x))")
+	g.p("\t// the same formula spelled out in Go (also what a native replay compares against)")
+	g.p("\tvhAssert(\"sov.formula\", realSov == vhSovFormula(x))")
+	g.p("\tvhAssert(\"soz.formula\", realSoz == vhSovFormula((x<<1)^uint64(int64(x)>>63)))")
+	g.p("}")
+	g.p("")
+	g.p("func vhSovFormula(x uint64) int {")
+	g.p("\tn := 1")
+	g.p("\tfor k := uint(1); k <= 9; k++ {")
+	g.p("\t\tif x >= 1<<(7*k) {")
+	g.p("\t\t\tn++")
+	g.p("\t\t}")
+	g.p("\t}")
+	g.p("\treturn n")
 	g.p("}")
 	g.p("")
 	g.p("// vhLen: symbolic length bound of strings/bytes: large for the field under test, small when nested")
@@ -747,6 +760,12 @@ func (g *gen) wantH2(prop string, m *Message, f *Field) bool {
 	if f.Card == "map" || (f.Card == "repeated" && f.Kind != "message") {
 		return false
 	}
+	if prop == "C01" && g.tier != "thorough" && (f.Card != "singular" || f.Kind == "message") {
+		// a round trip re-reads every populated field from a buffer with symbolic offsets: each
+		// of the ~25 equality assertions per path is a solver query (minutes per harness); the
+		// quick tier keeps one varint, one fixed and one length-delimited singular field
+		return false
+	}
 	if g.h2seen == nil {
 		g.h2seen = map[string]bool{}
 	}
@@ -811,14 +830,16 @@ func (g *gen) harnessUnknown(prop string, m *Message) {
 	g.p("\tvh%s_%s(x%s)", prop, n, extraArg(prop, "vhPrefix()"))
 	g.p("}")
 	g.p("")
-	g.p("// unknown fields together with every known field (incl. a selected oneof member) populated")
-	g.p("func VH_%s_%s_unknownFields_h2() {", prop, n)
-	g.p("\tx := &%s{}", n)
-	g.p("\tvhFill_%s(x)", n)
-	g.p("\tx.unknownFields = []byte{0x80, 0xa4, 0x3c, 0x07, 0xfa, 0xff, 0xff, 0xff, 0x0f, 0x01, 0x7a} // field 123456 varint 7; field 536870911 bytes \"z\"")
-	g.p("\tvh%s_%s(x%s)", prop, n, extraArg(prop, "nil"))
-	g.p("}")
-	g.p("")
+	if !(len(m.All) > 30 && g.tier != "thorough" && prop == "C01") {
+		g.p("// unknown fields together with every known field (incl. a selected oneof member) populated")
+		g.p("func VH_%s_%s_unknownFields_h2() {", prop, n)
+		g.p("\tx := &%s{}", n)
+		g.p("\tvhFill_%s(x)", n)
+		g.p("\tx.unknownFields = []byte{0x80, 0xa4, 0x3c, 0x07, 0xfa, 0xff, 0xff, 0xff, 0x0f, 0x01, 0x7a} // field 123456 varint 7; field 536870911 bytes \"z\"")
+		g.p("\tvh%s_%s(x%s)", prop, n, extraArg(prop, "nil"))
+		g.p("}")
+		g.p("")
+	}
 	if prop == "C04" {
 		for _, f := range m.All {
 			isMapMsg := f.Card == "map" && f.Val.Kind == "message" && f.Val.MsgName != ""
